@@ -124,11 +124,15 @@ def recover_and_check(binary, state_dir, completed, inprog, i_label):
                 return None
             recs = res.get("hits", {}).get("records") or []
             ids = [h.get("id") for h in recs]
+            if any(i is None for i in ids):
+                bad.append(("C07:content", "%s: %d event(s) returned without their id field (content lost): %s" % (
+                    stage, sum(1 for i in ids if i is None), json.dumps([h for h in recs if h.get("id") is None][:2])[:300])))
+                ids = [i for i in ids if i is not None]
             if len(ids) != len(set(ids)):
                 bad.append(("C07:dup", "%s: events returned twice: %s" % (stage, sorted(i for i in set(ids) if ids.count(i) > 1)[:5])))
             miss = sorted(set(must) - set(ids))
             if miss:
-                bad.append(("C07:lost", "%s: events of completed flushes are not searchable: ids %s (returned %s)" % (stage, miss[:8], sorted(ids)[:12])))
+                bad.append(("C07:lost", "%s: events of completed flushes are not searchable: ids %s (returned %s)" % (stage, miss[:8], sorted(ids, key=str)[:12])))
             strange = sorted(set(ids) - set(must) - set(may), key=str)
             if strange:
                 bad.append(("C07:invented", "%s: events that were never flushed: %s" % (stage, strange[:8])))
